@@ -3,13 +3,17 @@ def _c(e, **kw):
     c = {'MAXE': e, '_unwindset': ['in_data.0:%d' % (e*e + 2), 'k_fill_u32.0:%d' % (e*e + 2), 'agree.0:10', 'agree.1:10']}; c.update(kw); return c
 B2 = 'hybrid 2-d operand(s) (buffer capacity 16), extents 1..MAXE, all element data, every attribute and the result index symbolic; the functor expression (a type) is enumerated'
 def _h(name, unwind=8, quick=None, thorough=None, **kw):
-    return dict(name=name, src='harnesses/C14.c', func='h_' + name, kernels=['C14_functor'], unwind=unwind,
+    return dict(name=name, src='harnesses/C14.c', func=kw.pop('func', 'h_' + name), kernels=['C14_functor'], unwind=unwind,
                 quick=quick or [_c(3)], thorough=thorough or [_c(4)], bounds=B2, **kw)
 HARNESSES = [_h(n) for n in ('fn_transpose', 'fn_reshape', 'fn_flip', 'fn_slice', 'fn_invert', 'comp2', 'comp3', 'comp4', 'comp_sum', 'compb_inner', 'compb_inner_curry', 'compb_outer', 'compb_extract', 'extract_repeated')] + [
   _h('fn_sum', quick=[_c(3, VAR=v) for v in (1, 3)], thorough=[_c(3, VAR=v) for v in (2, 4)] + [_c(4, VAR=v) for v in (1, 2, 3, 4)])] + [   # fn_sum: 112-165 s per variant
   _h('fn_add', quick=[_c(3, VAR=v) for v in (2, 3)], thorough=[_c(3, VAR=v) for v in (1, 4, 5)] + [_c(4, VAR=v) for v in (1, 2, 3, 4, 5)]),
   _h('fn_subtract', quick=[_c(3, VAR=v) for v in (1, 2, 3, 4, 5)], thorough=[_c(4, VAR=v) for v in (1, 2, 3, 4, 5)])]
 GPROGS = ['chain', 'diamond', 'shared', 'shared2', 'two', 'two_diamond']
+LT = dict(_c(3), LL_LIFETIME=1)   # dead stack objects become arbitrary (engine/ll2c.py LL_LIFETIME): a read through a dangling reference is visible to the solver
+HARNESSES += [_h('compb_extract_lt', quick=[LT], thorough=[dict(_c(4), LL_LIFETIME=1)], func='h_compb_extract'),
+              _h('compb_extract_apply', quick=[LT], thorough=[dict(_c(4), LL_LIFETIME=1)]), _h('compb_extract_apply_flip', quick=[LT], thorough=[dict(_c(4), LL_LIFETIME=1)]),
+              _h('compb_extract_second', quick=[dict(_c(3), KF_C14_NESTED_SECOND_OPERAND=1)], thorough=[dict(_c(4), KF_C14_NESTED_SECOND_OPERAND=1)])]
 HARNESSES += [dict(name='graph', src='harnesses/C14_graph.c', func='h_graph', kernels=['C14_graph'], unwind=10, gate=False,
                    bounds='STRUCTURAL (no symbolic variable: the compute graph is a function of types): for the enumerated view types over aliased leaves - chain exp(tanh(x)), diamond add(tanh(x),exp(x)), '
                           'a leaf used inside a sub-view and directly (both operand orders), two leaves, a two-leaf diamond - the translated real code yields exactly the expected node set (leaf alias ids + view ids, all distinct) '
